@@ -112,6 +112,21 @@ def randomize(module, seed):
     return module
 
 
+def randomize_backbone(model, seed):
+    """generic random parameters for everything behind the stype-wise encoder(s) of a zoo model (the
+    encoders keep their own initialisation: their contracts are C12/C13's subject)"""
+    import torch
+    g = torch.Generator().manual_seed(seed)
+    for i, (name, child) in enumerate(model.named_children()):
+        if 'encoder' in name.lower() and 'decoder' not in name.lower():
+            continue
+        randomize(child, seed + 101 * (i + 1))
+    with torch.no_grad():
+        for name, p in model.named_parameters(recurse=False):
+            p.copy_(0.4 * torch.randn(p.shape, generator=g, dtype=torch.float64).to(p.dtype))
+    return model
+
+
 def lin(m):
     return {'w': enc(m.weight), 'b': None if m.bias is None else enc(m.bias)}
 
